@@ -784,7 +784,17 @@ def layout_frame_stream(facts):
     mids = [x for x in toks if x[0] == "case" or x[0] == "loop"]
     t.row(any("metadata_block" in str(x) for x in toks[1:-1]) or len(toks) >= 3, st.id, "metadata-loop",
           "no metadata continuation loop found")
-    t.rr.require_floor(7, "frame/stream rows")
+    # the stream parser rejects only what its sub-parsers reject, plus a first block that is not STREAMINFO: every other
+    # explicit error it constructs would refuse bytes the writer can emit (the writer checks no cross-field relation)
+    errs = []
+    for bb in [st] + facts.closures_of(st, recursive=True):
+        for bi, si, s in bb.iter_stmts():
+            if s["k"] == "assign" and s["rv"]["k"] == "agg" and s["rv"].get("adt") == "nom::Err" and s["rv"].get("variant") in ("Error", "Failure"):
+                errs.append(bb.loc(bi, si))
+    t.row(len(errs) <= 1, st.id, "no-extra-rejection", "parser::stream constructs %d explicit parse errors (%s); only the "
+          "`first block is not STREAMINFO` rejection is expected - any further cross-field validation refuses streams the "
+          "writer emits" % (len(errs), errs), {"explicit_errors": errs})
+    t.rr.require_floor(8, "frame/stream rows")
     return [t.rr]
 
 
